@@ -16,11 +16,13 @@ typedef struct {
 
 typedef struct {
   int present[VR_NARR], isdest[VR_NARR], esize[VR_NARR], isfloat[VR_NARR];
+  int lane[VR_NARR];		/* float lane size inside an element (x2 float programs: 4-byte lanes in 8-byte elements); 0 = element */
   long front[VR_NARR], need[VR_NARR];	/* elements before index 0 / total elements from index 0 */
   int role[VR_NARR];
   int nsrc_arrays;
   int has_acc;
   int float_prog;
+  int float_minmax;		/* program contains a float min/max: +0 and -0 are interchangeable results */
 } VShape;
 
 /* value of parameter var for choice k.  Domains are inferred from how the
@@ -51,7 +53,9 @@ static int64_t vr_param_value (OrcProgram * p, int var, int k)
     case 4: { int c[] = { 0x10000, 0x8000, 0x18000, 0x5555, 0x10001 }; return c[k % 5]; }
   }
   if (isf) {
-    static const int pick[] = { 10, 18, 2, 34, 0, 40, 36, 21 };	/* 1.0, -2.5, denormal, +inf, 0, normal, nan, 2^23+1 */
+    static const int pick_all[] = { 10, 18, 2, 34, 0, 40, 36, 21 };	/* 1.0, -2.5, denormal, +inf, 0, normal, nan, 2^23+1 */
+    static const int pick_fin[] = { 10, 18, 2, 32, 0, 40, 8, 21 };	/* finite only: +max instead of +inf, -min normal instead of nan */
+    const int *pick = v_finite_only ? pick_fin : pick_all;
     if (v->size == 8) return (int64_t) VF64[pick[k % 8]];
     return (int64_t) (int32_t) VF32[pick[k % 8]];
   }
@@ -99,7 +103,9 @@ static void vr_shape (OrcProgram * p, int n, int pchoice, VShape * sh)
     int a = in->src_args[0], known;
     if (op_is_float (o)) {
       sh->float_prog = 1;
-      for (j = 0; j < 4; j++) if (o->src_size[j] && (o->flags & ORC_STATIC_OPCODE_FLOAT_SRC) && in->src_args[j] < VR_NARR) sh->isfloat[in->src_args[j]] = 1;
+      if (!strncmp (o->name, "min", 3) || !strncmp (o->name, "max", 3)) sh->float_minmax = 1;
+      for (j = 0; j < 4; j++) if (o->src_size[j] && (o->flags & ORC_STATIC_OPCODE_FLOAT_SRC) && in->src_args[j] < VR_NARR) { sh->isfloat[in->src_args[j]] = 1; sh->lane[in->src_args[j]] = o->src_size[j]; }
+      for (j = 0; j < 2; j++) if (o->dest_size[j] && (o->flags & ORC_STATIC_OPCODE_FLOAT_DEST) && in->dest_args[j] < VR_NARR) sh->lane[in->dest_args[j]] = o->dest_size[j];
     }
     if (a < 0 || a >= VR_NARR || !sh->present[a]) continue;
     if (op_is_loadoff (o)) {
@@ -125,6 +131,9 @@ typedef struct {
   VArr a[VR_NARR];
   VShape sh;
 } VArena;
+
+static int vr_float_mode;		/* set by engines that compare float programs across paths */
+static long vr_ftz_before_rounding;
 
 static void vr_arena_alloc (VArena * A, OrcProgram * p, const VRunCfg * c)
 {
@@ -176,7 +185,11 @@ static void vr_arena_fill (VArena * A, const VRunCfg * c)
       unsigned char *row = a->data + (long) r * a->stride;
       for (e = -front; e < A->sh.need[i]; e++) {
         uint64_t idx = c->vbase + (uint64_t) (e + front) + (uint64_t) r * 7919u;
-        vr_store (row + e * sz, sz, v_value (sz, A->sh.isfloat[i], A->sh.role[i], idx));
+        if (A->sh.isfloat[i] && A->sh.lane[i] && A->sh.lane[i] < sz) {
+          int ln = A->sh.lane[i], q;
+          for (q = 0; q < sz / ln; q++) vr_store (row + e * sz + q * ln, ln, v_value (ln, 1, A->sh.role[i], idx * (uint64_t) (sz / ln) + q));
+        } else
+          vr_store (row + e * sz, sz, v_value (sz, A->sh.isfloat[i], A->sh.role[i], idx));
       }
     }
   }
@@ -227,6 +240,31 @@ static int vr_compare (VArena * X, VArena * R, const VRunCfg * c, OrcExecutor * 
       for (r = 0; r < rows; r++) {
         unsigned char *rx = x->data + (long) r * x->stride, *rq = q->data + (long) r * q->stride;
         size_t nb = (size_t) c->n * x->esize;
+        if (memcmp (rx, rq, nb) && vr_float_mode && X->sh.float_prog && (x->esize == 4 || x->esize == 8)) {
+          int lsz = (X->sh.lane[i] == 4 || X->sh.lane[i] == 8) ? X->sh.lane[i] : x->esize;
+          /* float programs: NaNs compare equal whatever their sign/payload; a zero where the reference has the smallest
+           * normal of the same sign is hardware flush-to-zero acting before rounding (counted, reported once) */
+          long e, ne = (long) c->n * (x->esize / lsz);
+          int differ = 0;
+          for (e = 0; e < ne && !differ; e++) {
+            if (lsz == 4) {
+              uint32_t g, w; memcpy (&g, rx + 4 * e, 4); memcpy (&w, rq + 4 * e, 4);
+              if (g == w) continue;
+              if ((g & 0x7f800000u) == 0x7f800000u && (g & 0x7fffffu) && (w & 0x7f800000u) == 0x7f800000u && (w & 0x7fffffu)) continue;
+              if ((g & 0x7fffffffu) == 0 && (w & 0x7fffffffu) == 0x00800000u && (g >> 31) == (w >> 31)) { vr_ftz_before_rounding++; continue; }
+              if (X->sh.float_minmax && (g & 0x7fffffffu) == 0 && (w & 0x7fffffffu) == 0) continue;
+              differ = 1;
+            } else {
+              uint64_t g, w; memcpy (&g, rx + 8 * e, 8); memcpy (&w, rq + 8 * e, 8);
+              if (g == w) continue;
+              if ((g & 0x7ff0000000000000ULL) == 0x7ff0000000000000ULL && (g & 0xfffffffffffffULL) && (w & 0x7ff0000000000000ULL) == 0x7ff0000000000000ULL && (w & 0xfffffffffffffULL)) continue;
+              if ((g & 0x7fffffffffffffffULL) == 0 && (w & 0x7fffffffffffffffULL) == 0x0010000000000000ULL && (g >> 63) == (w >> 63)) { vr_ftz_before_rounding++; continue; }
+              if (X->sh.float_minmax && (g & 0x7fffffffffffffffULL) == 0 && (w & 0x7fffffffffffffffULL) == 0) continue;
+              differ = 1;
+            }
+          }
+          if (!differ) continue;
+        }
         if (memcmp (rx, rq, nb)) {
           size_t b;
           for (b = 0; b < nb && rx[b] == rq[b]; b++);
